@@ -85,6 +85,13 @@ impl<T: Copy> Block for RationalResampler<T> {
                 opos += 1;
                 if opos == o.len() {
                     out_full = true;
+                    if self.counter > 0 {
+                        // More copies of this sample are due. Leave it in the
+                        // input, and undo the add, so that the next call
+                        // resumes with the same sample where we left off.
+                        taken -= 1;
+                        self.counter -= self.interp;
+                    }
                     break 'outer;
                 }
             }
